@@ -26,17 +26,17 @@ CONFIG = {
              "lists, references to nodes of the same tree) on tree / nodes / edges / taxa / namespace, with or without "
              "encoded bipartitions (mutable or not, edge maps cached or not) x route {deepcopy, clone(0|1|2), Tree(t), "
              "Tree(t, label=), Tree(t, taxon_namespace=foreign), copy.copy, extract_tree} x one mutation of source or "
-             "copy out of 34 kinds. treelist: 0-3 such trees over one namespace x 7 routes x list-level or per-tree "
+             "copy out of 34 kinds. treelist: 0-3 such trees over one namespace x 8 routes x list-level or per-tree "
              "mutation. matrix: 9 matrix types (dna, rna, nucleotide, protein, restriction, infinite, standard, standard "
-             "with custom alphabet, continuous) with matrix / sequence / cell / subset / character-type annotations x 7 "
-             "routes x 19 mutation kinds. namespace: annotated taxa x 6 routes x 12 mutation kinds. Exhaustive part: "
+             "with custom alphabet, continuous) with matrix / sequence / cell / subset / character-type annotations x 8 "
+             "routes x 19 mutation kinds. namespace: annotated taxa x 7 routes x 12 mutation kinds. Exhaustive part: "
              "every route x every mutation kind x both sides on one fixed annotated object of each kind (4-leaf tree). "
              "Non-trivial = the object carries >= 1 annotation or encoded bipartitions and a mutation was applied after "
              "the copy; distinct = (object spec, route, mutation)."),
     "exhaustive": {"quick": False, "thorough": False},
     "exhaustive_note": {"quick": "every copy route x every mutation kind x {source, copy} on one fixed annotated 4-leaf tree, "
                                  "2-tree list, standard matrix and namespace",
-                        "thorough": "same, plus 3 selector values per mutation"},
+                        "thorough": "same, with 3 selector values per mutation"},
     "assumptions": [
         "taxon labels are distinct (also case-insensitively) strings; every leaf carries a taxon",
         "copy.copy / clone(0) of a Tree is asserted namespace-scoped (Tree.__copy__); for TreeList / CharacterMatrix / "
@@ -202,7 +202,7 @@ def list_cases(draw, max_leaves, route=None):
     k = draw(st.integers(0, 3))
     trees = [draw(tree_objects(max_leaves, n_taxa=n)) for _ in range(k)]
     obj = {"kind": "treelist", "n": n, "hist": draw(shapes.namespace_history(n, max_extra=2)), "trees": trees,
-           "label": draw(st.sampled_from([None, "trees"])), "ldec": draw(decor(builtin=("label",))),
+           "label": draw(st.sampled_from([None, "trees"])), "ldec": draw(decor(builtin=("label",), refs=True)),
            "xdec": [[draw(st.integers(0, n - 1)), draw(decor(p=2))] for _ in range(draw(st.integers(0, 1)))]}
     route = route or draw(st.sampled_from(LIST_ROUTES))
     case = {"obj": obj, "route": route, "mut": draw(muts(LIST_MUTS)), "tmut": draw(muts(TREE_MUTS)),
@@ -352,7 +352,7 @@ def build_treelist_obj(obj):
     tl = dendropy.TreeList(taxon_namespace=ns, label=obj.get("label"))
     for tobj in obj["trees"]:
         tl.append(build_tree_obj(tobj, ns, taxa))
-    decorate(tl, obj.get("ldec"))
+    decorate(tl, obj.get("ldec"), nodes=list(tl._trees) or None)
     return tl, taxa
 
 
@@ -788,6 +788,22 @@ def check_tree(ctx, case):
         for nd in snapshot(cp)[0].obj:
             if nd.taxon is not None:
                 ctx.check(any(nd.taxon is t for t in roster_c), "copy_taxa_belong_to_the_given_namespace", "C12.foreign_ns:tree", tag)
+        if obj.get("enc"):
+            # observed, not asserted: the bit values are copied verbatim although the foreign namespace numbers its taxa
+            # differently (the statement lists structure, labels, lengths, rooting, annotations, sequences)
+            rt2 = snapshot(cp)[0]
+            acc = cns._taxon_accession_index_map
+            stale = False
+            for i in rt2.nodes():
+                wantmask = 0
+                for j in rt2.leaves(i):
+                    tx = rt2.obj[j].taxon
+                    if tx is not None:
+                        wantmask |= 1 << acc[tx]
+                b = rt2.obj[i]._edge._bipartition
+                if b is not None and b._leafset_bitmask != wantmask:
+                    stale = True
+            ctx.cls("foreign_ns:encoding_%s" % ("stale_for_new_namespace" if stale else "still_valid"))
     else:
         got = observe_tree(cp, roster_c, thin=True, skip=skip)["main"]
         want = observe_tree(src, roster_s, thin=True)["main"]
@@ -1244,8 +1260,7 @@ def check_ns(ctx, case):
     ctx.cls("ns_route:" + route)
     if depth == "identity":
         ctx.check(cp is src, "namespace_scoped_copy_of_a_namespace_is_the_namespace", "C12.equal:" + K, tag)
-        if interesting:
-            ctx.nontrivial(["namespace", obj, route])
+        ctx.cls("namespace_scoped_copy_is_the_namespace_itself")
         return
     ctx.check(isinstance(cp, dendropy.TaxonNamespace) and cp is not src and cp._taxa is not src._taxa, "copy_is_a_new_namespace",
               "C12.new_object:" + K, tag)
